@@ -432,7 +432,7 @@ func (r *runner) checkImage(cop, ft string, idx int, b base, mask uint64, tv tai
 }
 
 // tailVariants lists the torn tails to try for a batch of n bytes.
-func (r *runner) tailVariants(n int, full bool) []tailVariant {
+func (r *runner) tailVariants(n int, full bool, extra ...int) []tailVariant {
 	if n <= 1 {
 		return []tailVariant{{Kind: "junk", Off: r.rng.Intn(64)}}
 	}
@@ -456,6 +456,11 @@ func (r *runner) tailVariants(n int, full bool) []tailVariant {
 			o = n - 1
 		}
 		return o
+	}
+	for _, o := range extra {
+		if o >= 1 && o < n {
+			out = append(out, tailVariant{"cut", o})
+		}
 	}
 	out = append(out, tailVariant{"cut", pickOff([]int{1, 2, 6, 7, 10, 11, 12, 22, 23})}, tailVariant{"cut", pickOff([]int{n - 1, n - 2, n - 3})},
 		tailVariant{"cut", 1 + r.rng.Intn(n-1)}, tailVariant{"flip", r.rng.Intn(n)},
@@ -503,14 +508,28 @@ func (r *runner) imagesOf(cop, ft string, bs []base, every bool) {
 				if fr := r.real.files[gf.Num]; fr != nil && gf.Batches+1 < len(fr.ends) {
 					n = fr.ends[gf.Batches+1] - fr.ends[gf.Batches]
 				}
+				var extra []int
+				if n > 0 {
+					// a batch that crosses a 32 KiB block of Pebble's record format is written as
+					// several chunks: cut around every block boundary inside it
+					start := r.real.files[gf.Num].ends[gf.Batches]
+					for bnd := (start/32768 + 1) * 32768; bnd < start+n; bnd += 32768 {
+						for _, d := range []int{-12, -11, -7, -1, 0, 1, 7, 11, 12, 19, 20} {
+							extra = append(extra, bnd-start+d)
+						}
+					}
+					if len(extra) > 0 && mi == 0 {
+						r.res.Hit("image:batch-straddles-32k-block")
+					}
+				}
 				if n > 0 {
 					sweep := r.level >= 2 && mi == 0 && r.sweeps > 0
 					if sweep {
 						r.sweeps--
 						r.res.Hit("image:every-byte-offset-sweep")
 					}
-					tvs = r.tailVariants(n, sweep)
-					if !every || mi > 0 {
+					tvs = r.tailVariants(n, sweep, extra...)
+					if (!every || mi > 0) && len(extra) == 0 {
 						tvs = tvs[:1+r.rng.Intn(2)]
 						tvs[0] = lib.Pick(r.rng, r.tailVariants(n, false))
 					}
@@ -912,8 +931,17 @@ func (r *runner) exec(o Op) {
 					Replay: r.replay(map[string]any{"live": live})})
 			}
 		}
-		if bs != nil && (every || r.rng.Intn(12) == 0) {
-			r.imagesOf(o.K, o.F, bs, every)
+		straddle := false
+		for _, fdesc := range postDisk.Files {
+			if fr := r.real.files[fdesc.Num]; fr != nil && len(fr.ends) >= 2 && totalBatches(postDisk) > totalBatches(preDisk) {
+				a, b := fr.ends[len(fr.ends)-2], fr.ends[len(fr.ends)-1]
+				if fdesc.Num == postDisk.Files[len(postDisk.Files)-1].Num && a/32768 != (b-1)/32768 {
+					straddle = true
+				}
+			}
+		}
+		if bs != nil && (every || straddle || r.rng.Intn(12) == 0) {
+			r.imagesOf(o.K, o.F, bs, every || straddle)
 		}
 		if bs != nil {
 			r.hookImages(o, bs, preDisk)
